@@ -64,6 +64,10 @@ def elem(tags: set) -> set:
             out.add(("K", t[1]))
         elif k == "KSS":
             out.add(("KS", t[1]))
+        elif k == "KD":
+            out.add(("K", t[1]))
+        elif k == "KIT":
+            out.add(("KI", t[1]))
         elif k == "LL":
             out.add(("L", t[1], t[2], False, t[3]))
         elif k == "L":
@@ -144,6 +148,7 @@ class Shapes:
         self._summaries: dict = {}
         self._clean_cache: dict = {}
         self.unknown_filters: list[ast.AST] = []
+        self.scopes: dict[int, dict[str, set]] = {}  # comprehension -> its own variables
         self.overfilters: list[tuple[ast.AST, str]] = []  # (event, condition): pairs of *different* layers are dropped as well
         self._changed = True
         self.run()
@@ -164,9 +169,16 @@ class Shapes:
             old |= tags
             self._changed = True
 
-    def _bind(self, target: ast.expr, tags: set) -> None:
+    def _bind(self, target: ast.expr, tags: set, scope: dict | None = None) -> None:
         if isinstance(target, ast.Name):
-            self._join(target.id, tags)
+            if scope is not None:
+                # a comprehension variable: local to its comprehension (the same name may be reused by another one)
+                old = scope.setdefault(target.id, set())
+                if tags and not tags <= old:
+                    old |= tags
+                    self._changed = True
+            else:
+                self._join(target.id, tags)
         elif isinstance(target, (ast.Tuple, ast.List)):
             n = len(target.elts)
             for i, el in enumerate(target.elts):
@@ -174,6 +186,9 @@ class Shapes:
                 for t in tags:
                     if t[0] == "I" and n == 2:
                         sub.add(("K", t[1]) if i == 0 else ("L", t[1], t[2], False, t[3]))
+                    elif t[0] == "KI" and n == 2:
+                        if i == 0:
+                            sub.add(("K", t[1]))
                     elif t[0] == "GI1" and n == 2:
                         if i == 1:
                             sub.add(("D", t[1], t[2], True))
@@ -181,9 +196,9 @@ class Shapes:
                         sub.add(("E", t[1], t[2], t[3], t[4]))
                     elif t[0] == "K" and n == 2:
                         sub.add(("KE", t[1]))
-                self._bind(el, sub)
+                self._bind(el, sub, scope)
         elif isinstance(target, ast.Starred):
-            self._bind(target.value, tags)
+            self._bind(target.value, tags, scope)
         elif isinstance(target, ast.Attribute):
             self._join(norm(target), tags)
         elif isinstance(target, ast.Subscript):
@@ -771,6 +786,11 @@ class Shapes:
         if e is None:
             return set()
         if isinstance(e, ast.Name):
+            if self.scopes:
+                for a in ancestors(e):
+                    sc = self.scopes.get(id(a))
+                    if sc is not None and e.id in sc:
+                        return set(sc[e.id])
             return set(self.env.get(e.id, ()))
         if isinstance(e, ast.Constant):
             return set()
@@ -852,17 +872,17 @@ class Shapes:
             return out
         if isinstance(e, (ast.ListComp, ast.SetComp, ast.GeneratorExp)):
             for g in e.generators:
-                self._bind(g.target, elem(self.tags(g.iter)))
+                self._bind(g.target, elem(self.tags(g.iter)), self.scopes.setdefault(id(e), {}))
                 for c in g.ifs:
                     self.tags(c)
             return self._collect(self.tags(e.elt), e, None, e.elt)
         if isinstance(e, ast.DictComp):
             for g in e.generators:
-                self._bind(g.target, elem(self.tags(g.iter)))
+                self._bind(g.target, elem(self.tags(g.iter)), self.scopes.setdefault(id(e), {}))
                 for c in g.ifs:
                     self.tags(c)
-            self.tags(e.key)
-            out = set()
+            kt = self.tags(e.key)
+            out = {("KD", t[1]) for t in kt if t[0] == "K"}  # a table keyed by the keys of the dependency dictionary
             grouped = self._mentions_lookup_conds(e.value)
             for t in self.tags(e.value):
                 if t[0] == "L":
@@ -951,9 +971,9 @@ class Shapes:
             if a == "values":
                 return values_of(recv)
             if a == "keys":
-                return {("KS", t[1]) for t in recv if t[0] == "D"}
+                return {("KS", t[1]) for t in recv if t[0] in ("D", "KD")}
             if a == "items":
-                return {("IT", t[1], t[2], t[3]) for t in recv if t[0] == "D"} | {("GI", t[1], t[2]) for t in recv if t[0] == "G"}
+                return {("IT", t[1], t[2], t[3]) for t in recv if t[0] == "D"} | {("GI", t[1], t[2]) for t in recv if t[0] == "G"} | {("KIT", t[1]) for t in recv if t[0] == "KD"}
             if a in ("get", "pop", "setdefault", "__getitem__"):
                 out = lookup_in(recv)
                 if a in ("get", "setdefault") and len(args) > 1:
